@@ -324,9 +324,15 @@ const KINDS: &[(&str, usize)] = &[
     ("override-vector-type", 1),
     // diagnostics that render a very long line with multi-byte characters (whatever is done to the rendered text afterwards
     // - cutting, wrapping, colouring - must not panic and must not change it)
+    // the error sits at the very end of a newline-terminated source (naga counts a line after the last line break)
+    ("open-block-at-end-of-file", 2),
+    ("dangling-token-at-end-of-file", 1),
     ("long-line-parse-error", 2),
     ("long-line-validation-error", 2),
     // accepted by naga (output may change; validation must not matter)
+    // accepted by naga, but deeper / longer than a generator that pre-scans its input may expect
+    ("deep-parentheses", 1),
+    ("comment-full-of-brackets", 1),
     ("insert-comment", 2),
     ("insert-whitespace", 1),
     ("append-unused-fn", 1),
@@ -586,6 +592,8 @@ fn corrupt(kind: &str, src: &str, r: &mut Rng, tag: &str) -> Option<String> {
             "@id(4091) override {z}_a: f32 = 1.0;\n@id(4091) override {z}_b: f32 = 2.0;\nfn {z}_use() -> f32 {{\n    return {z}_a + {z}_b;\n}}"
         )),
         "override-vector-type" => append(format!("override {z}_v: vec2<f32>;")),
+        "open-block-at-end-of-file" => Some(format!("{}\nfn {z}_open(a: f32) -> f32 {{\n    return a;\n", src.trim_end())),
+        "dangling-token-at-end-of-file" => Some(format!("{}\n{}\n", src.trim_end(), r.pick(&["@group(0)", "fn", "struct S", "var<private> x:", "const k ="]))),
         "long-line-parse-error" | "long-line-validation-error" => {
             // one line of 9-14 KiB: ASCII padding 0..3, then a block comment of 2-, 3- or 4-byte characters, then the defect
             let ch = *r.pick(&["\u{e9}", "\u{20ac}", "\u{1F600}", "\u{3a9}", "\u{4e2d}"]);
@@ -598,6 +606,15 @@ fn corrupt(kind: &str, src: &str, r: &mut Rng, tag: &str) -> Option<String> {
                 format!("fn {z}_ret(a: u32) -> f32 {{ return a; }}")
             };
             append(format!("/*{pad}{filler}*/ {defect} /*{filler}*/"))
+        }
+        "deep-parentheses" => {
+            // 70..120 nested parentheses in one expression (naga's own limit is on brace nesting, and ~150 parentheses)
+            let n = 70 + r.below(50);
+            append(format!("fn {z}_deep(a: f32) -> f32 {{\n    return {}a{};\n}}", "(".repeat(n), ")".repeat(n)))
+        }
+        "comment-full-of-brackets" => {
+            let n = 100 + r.below(200);
+            append(format!("// {}\n/* {} */", "([{".repeat(n), "{{(".repeat(n)))
         }
         "insert-comment" => {
             if sol.is_empty() {
